@@ -458,3 +458,12 @@ def write_ndjson(path, recs):
     with open(path, "w") as fh:
         for r in recs:
             fh.write(json.dumps(r, separators=(",", ":")) + "\n")
+
+
+def read_ndjson_head(path, n):
+    """The n-th record of the file (a non-trivial sample), as a one-element list."""
+    with open(path) as fh:
+        for i, ln in enumerate(fh):
+            if i + 1 == n:
+                return [json.loads(ln)]
+    return []
